@@ -1525,6 +1525,10 @@ class ExtendedToOriginalDecorator:
         try:
             outcome = getattr(self.decorated, "addUnexpectedSuccess", None)
             if outcome is None:
+                if details is not None:
+                    # Degrade to a failure, and let addFailure turn the
+                    # details into a synthetic exception carrying their text.
+                    return self.addFailure(test, details=details)
                 # Not every test object (PlaceHolder, for one) has a fail()
                 # method or a usable failureException.
                 failure_exception = (
